@@ -272,6 +272,8 @@ class StmtMixin:
                     return inner
             if it[0] == "reg":
                 return ("keyof", it[1], loop_id)
+            if it[0] in ("list", "tuple") and len(it[1]) == 1:
+                return it[1][0]
         return ("unk", "iter%d" % loop_id)
 
     def s_While(self, n, st, fx):
